@@ -50,6 +50,7 @@ class Opts:
         self.exit_stmts = True
         self.builtins = True
         self.seed_vars = False        # initialise a few variables from INPUT / RND so that paths depend on the script
+        self.strip_parens = 0.6       # probability of dropping a pair of parentheses that operator precedence makes redundant
         self.__dict__.update(kw)
 
 
@@ -68,6 +69,7 @@ class Scope:
 class Gen:
     def __init__(self, seed, opts=None):
         self.r = random.Random(seed)
+        self.seed = seed if isinstance(seed, int) else 0
         self.o = opts or Opts()
         self.n = 0
         self.types = []           # (tname, [(fname, ftype)])
@@ -1056,6 +1058,17 @@ class Gen:
         prog = {'deftype': deft, 'types': self.types, 'main': shared_body + body,
                 'procs': [{k: v for k, v in p.items() if k != 'scope'} for p in self.procs],
                 'features': sorted(self.features)}
+        if o.strip_parens:
+            import random as _random
+            from . import ir as _ir
+            cnt = [0]
+            r2 = _random.Random(self.seed * 7 + 3) if hasattr(self, 'seed') else _random.Random(len(body))
+            _ir.strip_parens(prog['main'], r2, o.strip_parens, cnt)
+            for p_ in prog['procs']:
+                _ir.strip_parens(p_['body'], r2, o.strip_parens, cnt)
+            if cnt[0]:
+                prog['features'] = sorted(set(prog['features']) | {'precedence-implied-grouping'})
+            prog['parens_dropped'] = cnt[0]
         return prog
 
 
